@@ -84,9 +84,19 @@ def c02(p, obs):
 
 
 def has_f15_stage(p):
-    """pipelines whose key lookup goes through a SliceDataset (known finding F15)"""
-    import gen
-    return any(o in F15_OPS for o in gen.ops_of(p))
+    """does `ds[key]` of this pipeline reach a SliceDataset.__getitem__(str) without passing a stage that
+    resolves the key against its own key table first (known finding F15)?"""
+    op = p['op']
+    if op in F15_OPS:
+        return True
+    if op in ('map', 'parMap', 'copy', 'filterLazy', 'catch', 'cycle', 'tile'):
+        return has_f15_stage(p['p'])
+    if op == 'keyZip':
+        return any(has_f15_stage(q) for q in p['ps'])
+    if op in ('concat', 'intersperse'):
+        # `if item in dataset.keys(): return dataset[item]` consults the part's key table first; a single part is returned as is
+        return len(p['ps']) == 1 and has_f15_stage(p['ps'][0])
+    return False          # items / cache resolve the key through keys().index; sources know their keys
 
 
 def c03(p, obs):
